@@ -15,7 +15,7 @@ NTAB = 300          # size of the padded co_consts / co_names / co_varnames tabl
 # structures we do not build
 NEVER = ("INSTRUMENTED_", "ENTER_EXECUTOR", "RESERVED", "INTERPRETER_EXIT", "CACHE", "EXTENDED_ARG", "<")
 # operand-taking opcodes whose operand dis looks up in a small fixed table: keep the operand small
-ENUMERATED = {"BINARY_OP": 13, "COMPARE_OP": 6, "IS_OP": 2, "CONTAINS_OP": 2, "CALL_INTRINSIC_1": 6, "CALL_INTRINSIC_2": 4,
+ENUMERATED = {"BINARY_OP": 26, "COMPARE_OP": 6, "IS_OP": 2, "CONTAINS_OP": 2, "CALL_INTRINSIC_1": 12, "CALL_INTRINSIC_2": 6,
               "FORMAT_VALUE": 8, "CONVERT_VALUE": 4, "RAISE_VARARGS": 3, "MAKE_FUNCTION": 16, "SET_FUNCTION_ATTRIBUTE": 9,
               "RESUME": 4, "COPY_FREE_VARS": 1, "RETURN_GENERATOR": 1, "GEN_START": 3, "LOAD_ASSERTION_ERROR": 1,
               "BUILD_SLICE": 4, "FORMAT_WITH_SPEC": 1, "FORMAT_SIMPLE": 1}
@@ -220,7 +220,8 @@ def asm_cases(version, tab, max_items=14):
         it["pre"] = draw(st.sampled_from([0, 0, 0, 1, 2, maxpre])) if maxpre > 1 else draw(st.sampled_from([0, 0, 1]))
         it["pre"] = min(it["pre"], maxpre)
         if k == "jump":
-            it["to"] = draw(st.one_of(st.just(0), st.integers(0, max_items), st.integers(0, max_items)))
+            # -1: the offset just past the last instruction (len(co_code)), a legal jump target
+            it["to"] = draw(st.one_of(st.just(0), st.just(-1), st.integers(0, max_items), st.integers(0, max_items)))
             it["arg"] = 0
         elif k == "table":
             it["arg"] = draw(st.integers(0, tab.table_limit(name)))
